@@ -419,18 +419,23 @@ package common
 //@ func (m *MultiAsset[*math/big.Int]) normalize() (ret)
 //@   props C06
 //@   attr loopframe fresh
+//@   attr allocates on
+//@   attr cardaxioms on
 //@   assigns nothing
 //@   ensures exact: ret != nil && fresh(ret) && forall p Blake2b224, a cbor.ByteString :: (p in ret && a in ret[p]) <==> (m != nil && qty(m, p, a) != 0)
 //@   ensures values: forall p Blake2b224, a cbor.ByteString :: p in ret && a in ret[p] ==> ret[p][a] != nil && val(ret[p][a]) == qty(m, p, a)
 //@   ensures inner: forall p Blake2b224 :: p in ret ==> ret[p] != nil && fresh(ret[p])
+//@   ensures nonempty: forall p Blake2b224 :: p in ret ==> len(ret[p]) > 0
 //@   ensures noshare: forall p Blake2b224, p2 Blake2b224 :: p in ret && p2 in ret && p != p2 ==> ret[p] != ret[p2]
 //@   loop 0 invariant ret != nil && fresh(ret) && m != nil && m.data != nil
 //@   loop 0 invariant forall p Blake2b224 :: p in ret ==> ret[p] != nil && fresh(ret[p])
+//@   loop 0 invariant forall p Blake2b224 :: p in ret ==> len(ret[p]) > 0
 //@   loop 0 invariant forall p Blake2b224, p2 Blake2b224 :: p in ret && p2 in ret && p != p2 ==> ret[p] != ret[p2]
 //@   loop 0 invariant forall p Blake2b224, a cbor.ByteString :: (p in ret && a in ret[p]) <==> (visited[p] && qty(m, p, a) != 0)
 //@   loop 0 invariant forall p Blake2b224, a cbor.ByteString :: p in ret && a in ret[p] ==> ret[p][a] != nil && val(ret[p][a]) == qty(m, p, a)
 //@   loop 1 invariant ret != nil && fresh(ret) && m != nil && m.data != nil && policy in m.data && assets == m.data[policy]
 //@   loop 1 invariant forall p Blake2b224 :: p in ret ==> ret[p] != nil && fresh(ret[p])
+//@   loop 1 invariant forall p Blake2b224 :: p in ret ==> len(ret[p]) > 0
 //@   loop 1 invariant forall p Blake2b224, p2 Blake2b224 :: p in ret && p2 in ret && p != p2 ==> ret[p] != ret[p2]
 //@   loop 1 invariant forall p Blake2b224, a cbor.ByteString :: p != policy ==> ((p in ret && a in ret[p]) <==> (visited0[p] && qty(m, p, a) != 0))
 //@   loop 1 invariant forall a cbor.ByteString :: (policy in ret && a in ret[policy]) <==> (visited[a] && qty(m, policy, a) != 0)
